@@ -31,9 +31,9 @@ Model/IndexGroups.vos Model/IndexGroups.vok Model/IndexGroups.required_vos: Mode
 Proofs/IndexGroupsProof.vo Proofs/IndexGroupsProof.glob Proofs/IndexGroupsProof.v.beautified Proofs/IndexGroupsProof.required_vo: Proofs/IndexGroupsProof.v Lib/Bytes.vo Model/Index.vo Model/Dag.vo Model/IndexGroups.vo Proofs/IndexProof.vo Proofs/DagApi.vo
 Proofs/IndexGroupsProof.vio: Proofs/IndexGroupsProof.v Lib/Bytes.vio Model/Index.vio Model/Dag.vio Model/IndexGroups.vio Proofs/IndexProof.vio Proofs/DagApi.vio
 Proofs/IndexGroupsProof.vos Proofs/IndexGroupsProof.vok Proofs/IndexGroupsProof.required_vos: Proofs/IndexGroupsProof.v Lib/Bytes.vos Model/Index.vos Model/Dag.vos Model/IndexGroups.vos Proofs/IndexProof.vos Proofs/DagApi.vos
-Harness/Glue.vo Harness/Glue.glob Harness/Glue.v.beautified Harness/Glue.required_vo: Harness/Glue.v Lib/Bytes.vo Lib/Val.vo Model/Index.vo Model/Dag.vo Model/IndexGroups.vo Model/Git.vo Model/Tracking.vo Model/CfgFile.vo Model/Sched.vo Model/Plan.vo Model/Lock.vo Model/Reader.vo Model/Filter.vo
-Harness/Glue.vio: Harness/Glue.v Lib/Bytes.vio Lib/Val.vio Model/Index.vio Model/Dag.vio Model/IndexGroups.vio Model/Git.vio Model/Tracking.vio Model/CfgFile.vio Model/Sched.vio Model/Plan.vio Model/Lock.vio Model/Reader.vio Model/Filter.vio
-Harness/Glue.vos Harness/Glue.vok Harness/Glue.required_vos: Harness/Glue.v Lib/Bytes.vos Lib/Val.vos Model/Index.vos Model/Dag.vos Model/IndexGroups.vos Model/Git.vos Model/Tracking.vos Model/CfgFile.vos Model/Sched.vos Model/Plan.vos Model/Lock.vos Model/Reader.vos Model/Filter.vos
+Harness/Glue.vo Harness/Glue.glob Harness/Glue.v.beautified Harness/Glue.required_vo: Harness/Glue.v Lib/Bytes.vo Lib/Val.vo Model/Index.vo Model/Dag.vo Model/IndexGroups.vo Model/Git.vo Model/Tracking.vo Model/CfgFile.vo Model/Sched.vo Model/Plan.vo Model/RunPaths.vo Model/Lock.vo Model/Reader.vo Model/Filter.vo
+Harness/Glue.vio: Harness/Glue.v Lib/Bytes.vio Lib/Val.vio Model/Index.vio Model/Dag.vio Model/IndexGroups.vio Model/Git.vio Model/Tracking.vio Model/CfgFile.vio Model/Sched.vio Model/Plan.vio Model/RunPaths.vio Model/Lock.vio Model/Reader.vio Model/Filter.vio
+Harness/Glue.vos Harness/Glue.vok Harness/Glue.required_vos: Harness/Glue.v Lib/Bytes.vos Lib/Val.vos Model/Index.vos Model/Dag.vos Model/IndexGroups.vos Model/Git.vos Model/Tracking.vos Model/CfgFile.vos Model/Sched.vos Model/Plan.vos Model/RunPaths.vos Model/Lock.vos Model/Reader.vos Model/Filter.vos
 Harness/Extract.vo Harness/Extract.glob Harness/Extract.v.beautified Harness/Extract.required_vo: Harness/Extract.v Harness/Glue.vo
 Harness/Extract.vio: Harness/Extract.v Harness/Glue.vio
 Harness/Extract.vos Harness/Extract.vok Harness/Extract.required_vos: Harness/Extract.v Harness/Glue.vos
@@ -97,21 +97,27 @@ AsFound/C02.vos AsFound/C02.vok AsFound/C02.required_vos: AsFound/C02.v Model/Gi
 Model/Tracking.vo Model/Tracking.glob Model/Tracking.v.beautified Model/Tracking.required_vo: Model/Tracking.v 
 Model/Tracking.vio: Model/Tracking.v 
 Model/Tracking.vos Model/Tracking.vok Model/Tracking.required_vos: Model/Tracking.v 
+Model/RunPaths.vo Model/RunPaths.glob Model/RunPaths.v.beautified Model/RunPaths.required_vo: Model/RunPaths.v Lib/Bytes.vo
+Model/RunPaths.vio: Model/RunPaths.v Lib/Bytes.vio
+Model/RunPaths.vos Model/RunPaths.vok Model/RunPaths.required_vos: Model/RunPaths.v Lib/Bytes.vos
 Proofs/TrackingProof.vo Proofs/TrackingProof.glob Proofs/TrackingProof.v.beautified Proofs/TrackingProof.required_vo: Proofs/TrackingProof.v Model/Tracking.vo
 Proofs/TrackingProof.vio: Proofs/TrackingProof.v Model/Tracking.vio
 Proofs/TrackingProof.vos Proofs/TrackingProof.vok Proofs/TrackingProof.required_vos: Proofs/TrackingProof.v Model/Tracking.vos
-Properties/C12.vo Properties/C12.glob Properties/C12.v.beautified Properties/C12.required_vo: Properties/C12.v Model/Tracking.vo Proofs/TrackingProof.vo
-Properties/C12.vio: Properties/C12.v Model/Tracking.vio Proofs/TrackingProof.vio
-Properties/C12.vos Properties/C12.vok Properties/C12.required_vos: Properties/C12.v Model/Tracking.vos Proofs/TrackingProof.vos
+Proofs/RunPathsProof.vo Proofs/RunPathsProof.glob Proofs/RunPathsProof.v.beautified Proofs/RunPathsProof.required_vo: Proofs/RunPathsProof.v Lib/Bytes.vo Model/RunPaths.vo
+Proofs/RunPathsProof.vio: Proofs/RunPathsProof.v Lib/Bytes.vio Model/RunPaths.vio
+Proofs/RunPathsProof.vos Proofs/RunPathsProof.vok Proofs/RunPathsProof.required_vos: Proofs/RunPathsProof.v Lib/Bytes.vos Model/RunPaths.vos
+Properties/C12.vo Properties/C12.glob Properties/C12.v.beautified Properties/C12.required_vo: Properties/C12.v Model/Tracking.vo Proofs/TrackingProof.vo Lib/Bytes.vo Lib/Val.vo Model/RunPaths.vo Proofs/RunPathsProof.vo
+Properties/C12.vio: Properties/C12.v Model/Tracking.vio Proofs/TrackingProof.vio Lib/Bytes.vio Lib/Val.vio Model/RunPaths.vio Proofs/RunPathsProof.vio
+Properties/C12.vos Properties/C12.vok Properties/C12.required_vos: Properties/C12.v Model/Tracking.vos Proofs/TrackingProof.vos Lib/Bytes.vos Lib/Val.vos Model/RunPaths.vos Proofs/RunPathsProof.vos
 Properties/C13.vo Properties/C13.glob Properties/C13.v.beautified Properties/C13.required_vo: Properties/C13.v Model/Tracking.vo Proofs/TrackingProof.vo
 Properties/C13.vio: Properties/C13.v Model/Tracking.vio Proofs/TrackingProof.vio
 Properties/C13.vos Properties/C13.vok Properties/C13.required_vos: Properties/C13.v Model/Tracking.vos Proofs/TrackingProof.vos
 AsFound/C13.vo AsFound/C13.glob AsFound/C13.v.beautified AsFound/C13.required_vo: AsFound/C13.v Model/Tracking.vo Proofs/TrackingProof.vo Properties/C13.vo
 AsFound/C13.vio: AsFound/C13.v Model/Tracking.vio Proofs/TrackingProof.vio Properties/C13.vio
 AsFound/C13.vos AsFound/C13.vok AsFound/C13.required_vos: AsFound/C13.v Model/Tracking.vos Proofs/TrackingProof.vos Properties/C13.vos
-AsFound/C12.vo AsFound/C12.glob AsFound/C12.v.beautified AsFound/C12.required_vo: AsFound/C12.v Model/Tracking.vo Proofs/TrackingProof.vo Properties/C12.vo
-AsFound/C12.vio: AsFound/C12.v Model/Tracking.vio Proofs/TrackingProof.vio Properties/C12.vio
-AsFound/C12.vos AsFound/C12.vok AsFound/C12.required_vos: AsFound/C12.v Model/Tracking.vos Proofs/TrackingProof.vos Properties/C12.vos
+AsFound/C12.vo AsFound/C12.glob AsFound/C12.v.beautified AsFound/C12.required_vo: AsFound/C12.v Model/Tracking.vo Proofs/TrackingProof.vo Properties/C12.vo Lib/Bytes.vo Lib/Val.vo Model/RunPaths.vo
+AsFound/C12.vio: AsFound/C12.v Model/Tracking.vio Proofs/TrackingProof.vio Properties/C12.vio Lib/Bytes.vio Lib/Val.vio Model/RunPaths.vio
+AsFound/C12.vos AsFound/C12.vok AsFound/C12.required_vos: AsFound/C12.v Model/Tracking.vos Proofs/TrackingProof.vos Properties/C12.vos Lib/Bytes.vos Lib/Val.vos Model/RunPaths.vos
 Model/CfgFile.vo Model/CfgFile.glob Model/CfgFile.v.beautified Model/CfgFile.required_vo: Model/CfgFile.v 
 Model/CfgFile.vio: Model/CfgFile.v 
 Model/CfgFile.vos Model/CfgFile.vok Model/CfgFile.required_vos: Model/CfgFile.v 
